@@ -46,6 +46,7 @@ impl Monitor for C18 {
             ("crash_points_inside_calls_on_other_queues", tier.pick(5_000, 120_000)),
             ("queue_states_compared_after_crash", tier.pick(20_000, 500_000)),
             ("crash_continuations_run", tier.pick(5_000, 100_000)),
+            ("ondelay_crash_images_checked_for_a_quiet_queue", tier.pick(300, 6_000)),
         ]
     }
     fn rule(&self) -> String {
@@ -132,6 +133,46 @@ impl Monitor for C18 {
             acc.count("histories_where_other_queues_gc_unlinked_files");
         }
         acc.count(&format!("histories_profile_{}", profile.name()));
+
+        // ---- OnDelay leg (one case in four) ---------------------------------------------------
+        // Under OnDelay(2 ms, Flush), queue B appends once and goes quiet while queue A keeps
+        // appending every millisecond.  Alone, B's record would be flushed by B's next call
+        // after the delay; with A around, one of A's calls falls after the deadline and flushes
+        // it.  After 7 ms it must have reached the OS whatever A did: A's traffic must not keep
+        // B's acknowledged record in the buffer.  (Sleeps are never shorter than asked, so
+        // correct code cannot fail this; a loaded machine can only hide a defect.)
+        if case % 4 == 1 {
+            let ddir = ctx.scratch.sub("c18-delay");
+            crate::util::clear_dir(&ddir);
+            if let Ok(mut s) = Sut::open(&ddir, Policy::DelayShortFlush, key, false) {
+                let (qa, qb) = ("delay-a".to_string(), "delay-b".to_string());
+                let _ = s.apply(0, &Op::Create { q: qa.clone() });
+                let _ = s.apply(5, &Op::Create { q: qb.clone() });
+                let b0 = s.apply(10, &Op::Append { q: qb.clone(), pos: None, lens: vec![40], chained: false });
+                for j in 0..7usize {
+                    std::thread::sleep(std::time::Duration::from_millis(1));
+                    let _ = s.apply(15 + 5 * j, &Op::Append { q: qa.clone(), pos: None, lens: vec![24], chained: false });
+                }
+                let img = crate::image::Image::from_dir(&ddir);
+                let side = ctx.scratch.sub("c18-delay-rec");
+                crate::util::clear_dir(&side);
+                img.materialize(&side);
+                acc.eval();
+                acc.count("ondelay_crash_images_checked_for_a_quiet_queue");
+                if let (crate::ops::Outcome::Appended { last: Some(p), .. }, Ok(rec)) = (b0.clone(), Sut::open(&side, Policy::AlwaysFlush, key, false)) {
+                    let present = Snapshot::take(rec.log()).ok().and_then(|sn| sn.queues.get(&qb).map(|g| g.recs.iter().any(|r| r.pos == p && r.len == 40))).unwrap_or(false);
+                    if !present {
+                        acc.violation(
+                            "C18/quiet-queue-record-kept-in-the-buffer-by-another-queues-traffic/OnDelay",
+                            case,
+                            json!({"policy": "OnDelay(2ms, Flush)", "history": "create a; create b; b.append(40 B); 7 x { sleep 1 ms; a.append(24 B) }; process-crash image", "violated": "b's record was appended 7 ms (more than three delays) earlier and calls kept arriving, yet it never reached the OS"}),
+                        );
+                        return;
+                    }
+                }
+                drop(s);
+            }
+        }
 
         // ---- projections ----------------------------------------------------------------
         let proj_dir = ctx.scratch.sub("c18-proj");
